@@ -60,6 +60,9 @@ where
         }
     }
 
+    /// The most connection IDs this endpoint keeps issued at once.
+    const MAX_ISSUED_CIDS: u64 = 16;
+
     fn initial_scid(&self) -> Option<ConnectionId> {
         self.cid_deque.get(0)?.map(|(cid, _)| cid)
     }
@@ -79,6 +82,10 @@ where
             )
             .into());
         }
+        // The peer's limit is an upper bound, not an order: never keep more than
+        // MAX_ISSUED_CIDS connection IDs outstanding, whatever value the peer advertises
+        // (an endpoint MAY limit the number of connection IDs it issues, RFC 9000 §5.1.1).
+        let active_cid_limit = active_cid_limit.min(Self::MAX_ISSUED_CIDS);
         for _ in self.cid_deque.largest()..active_cid_limit {
             self.issue_new_cid();
         }
